@@ -587,3 +587,10 @@ Definition expected_GetTree_codes : list string :=
 ].
 Lemma GetTree_codes_pinned : Gen.Front.front_GetTree_codes = expected_GetTree_codes.
 Proof. reflexivity. Qed.
+
+(* the whole FindMissingBlobs handler: nil checks and validateHash per digest, then the request's own
+   digest list handed to the disk layer, and its answer returned as it is *)
+Definition expected_FindMissingBlobs_src : string :=
+  "{ if req == nil { return nil, errNilFindMissingBlobsRequest } errorPrefix := ""GRPC CAS HEAD"" for _, digest := range req.BlobDigests { if digest == nil { return nil, errNilDigest } err := s.validateHash(digest.Hash, digest.SizeBytes, errorPrefix) if err != nil { return nil, err } } missingBlobs, err := s.cache.FindMissingCasBlobs(ctx, req.BlobDigests) if err != nil { return nil, err } return &pb.FindMissingBlobsResponse{MissingBlobDigests: missingBlobs}, nil }".
+Lemma FindMissingBlobs_src_pinned : Gen.Front.front_FindMissingBlobs_src = expected_FindMissingBlobs_src.
+Proof. reflexivity. Qed.
